@@ -420,7 +420,10 @@ class X12Reader(X12Base):
             if line.startswith(' '):
                 err_str = 'Segment contains a leading space'
                 self._seg_error('1', err_str, None, src_line=self.cur_line + 1)
-                line = line.lstrip()
+                # blanks, and the line break of a fixed-width record; not every
+                # character Python calls white space (FS, GS, RS, US and TAB are
+                # legal delimiters)
+                line = line.lstrip(' \r\n')
                 if line == '':
                     # Segment held nothing but blanks
                     continue
